@@ -396,6 +396,8 @@ class Engine(Exec):
         if f.kind in ('builtin', 'spec', 'pymethod'):
             return [(st, self.call_value(f, args, kwargs, st, fr, node))]
         mod, qual, fnode, selfobj = self.resolve(f, fr)
+        if selfobj is not None and any(isinstance(d, ast.Name) and d.id == 'staticmethod' for d in fnode.decorator_list):
+            selfobj = None
         if selfobj is not None:
             args = [selfobj] + list(args)
         c = self.ctx.contract_for(mod.relpath, qual)
@@ -812,6 +814,9 @@ class Engine(Exec):
         return [st]
 
     def st_Assert(self, s, st, fr):
+        if self.trace_mode(fr):
+            # the trace abstraction does not decide data assertions (they are the subject of the other properties)
+            return [st]
         c = self.ev(s.test, st, fr)
         c = truth(c)
         if fr.contract is not None or True:
